@@ -70,7 +70,8 @@ def rule_handover(repo, chk):
     f = repo.func(MANAGER, 'Manager._fire')
     gf = f.cfg()
     apps = [n for n in gf.nodes if n.kind == 'stmt' and any(r == 'self._queue' for r, _c in pat.method_calls(n.ast, 'append')) and _under(n, 'self._lock')]
-    need(apps, 'C03.i: _fire has no locked append')
+    if not apps:
+        chk.ob('i', f.ref, 'a fire from another thread queues under the manager lock', False, loc(f, f.node), discr='root-rechecked-under-lock')
     still_root = pat.test_edge(lambda tt, pol: pat.fact_matches(pat.compare_fact(tt, pol), 'self.root', ('is', '=='), 'self'))
     for n in apps:
         q = pat.guarded_by(gf, n, still_root)
